@@ -458,6 +458,21 @@ Fixpoint ideal_shape (g: geom) : geom :=
 Definition ideal (c: cfg) (g: geom) : geom :=
   ideal_shape (drop_dims (c_dim c) (if c_srid c && is_ext (c_fl c) then g else clear_srid g)).
 
+(* stored points with NaN X and Y whose written ordinates are all the canonical quiet NaN (the only such points whose bytes a
+   re-write reproduces: the re-read geometry is POINT EMPTY, which is written with canonical NaNs) *)
+Fixpoint nan_canon (g: geom) : bool :=
+  match g with
+  | GPoint _ s =>
+      match pts s with
+      | [p] => if is_nan (cx p) && is_nan (cy p)
+               then (cx p =? NAN64) && (cy p =? NAN64) && (ord_z s p =? NAN64) && (ord_m s p =? NAN64) else true
+      | _ => true
+      end
+  | GCurvePoly _ sh hs => nan_canon sh && forallb nan_canon hs
+  | GColl _ _ ks => forallb nan_canon ks
+  | _ => true
+  end.
+
 (* ---------------------------------------------------------------- entry points for the extracted driver *)
 Definition all_cfgs : list cfg :=
   flat_map (fun b => flat_map (fun f => flat_map (fun d => map (fun s => mkCfg b f d s) [false; true]) [D2; D3; D4]) [Ext; Iso]) [LE; BE].
